@@ -32,7 +32,7 @@ pub fn cells(tier: Tier) -> Vec<CellPlan> {
             ],
             rounds: if q || clients == 2 { 3 } else { 4 },
             tick_choice: true,
-            env: EvEnv { hold_updates: 3, hold_events: true, reorder: true, drop_unreliable: false, hold_client_events: false, hold_mutations: false, hold_acks: false, update_latency: 0 },
+            env: EvEnv { hold_updates: 3, hold_events: true, reorder: true, drop_unreliable: false, hold_client_events: false, hold_mutations: false, hold_acks: false, update_latency: 0, update_batch: 0 },
             oracles: EvOracles { c04: true, ..Default::default() },
             closure_rounds: 4,
         };
@@ -61,7 +61,7 @@ pub fn cells(tier: Tier) -> Vec<CellPlan> {
             ],
             rounds: if q { 3 } else { 4 },
             tick_choice: true,
-            env: EvEnv { hold_updates: 1, hold_events: false, reorder: false, drop_unreliable: false, hold_client_events: false, hold_mutations: false, hold_acks: false, update_latency: 0 },
+            env: EvEnv { hold_updates: 1, hold_events: false, reorder: false, drop_unreliable: false, hold_client_events: false, hold_mutations: false, hold_acks: false, update_latency: 0, update_batch: 0 },
             oracles: EvOracles { c04: true, ..Default::default() },
             closure_rounds: 4,
         };
@@ -88,7 +88,7 @@ pub fn cells(tier: Tier) -> Vec<CellPlan> {
             ],
             rounds: if q { 5 } else { 6 },
             tick_choice: false,
-            env: EvEnv { hold_updates: 0, hold_events: false, reorder: false, drop_unreliable: false, hold_client_events: false, hold_mutations: false, hold_acks: false, update_latency: lat },
+            env: EvEnv { hold_updates: 0, hold_events: false, reorder: false, drop_unreliable: false, hold_client_events: false, hold_mutations: false, hold_acks: false, update_latency: lat, update_batch: 0 },
             oracles: EvOracles { c04: true, c05: true, ..Default::default() },
             closure_rounds: 6,
         };
